@@ -20,9 +20,30 @@ from pathlib import Path
 from sim import dtgen, env, genmod, nodeworld, wire
 from sim.harness import Check, Violation
 
-from frappy.datatypes import get_datatype
+from frappy.datatypes import get_datatype, StringType
+from frappy.io import HasIO
 from frappy.lib import generalConfig
+from frappy.modules import Communicator, Readable
+from frappy.properties import Property
 from frappy.server import Server
+
+
+class AutoIO(Communicator):
+    """a communicator without hardware"""
+    uri = Property('where to connect to', StringType(), default='')
+
+    def communicate(self, command):
+        """send a command, return the reply"""
+        return 'reply to ' + command
+
+
+class WithIO(HasIO, Readable):
+    """configured with an uri: the node creates the communicator <name>_io by itself"""
+    ioClass = AutoIO
+
+    def read_value(self):
+        return float(len(self.communicate('T?')))
+
 
 # the shipped configurations that start without hardware in this snapshot (the other sim_mlz_* files are
 # rejected by the node itself with configuration errors; multiplexer/ppms_proxy need a second node)
@@ -84,7 +105,7 @@ class C06(Check):
                    'payload, a non-importable emitted value and flag / constant mismatches are',
                    'the clause "interface class and features match the implementing class" is a pure '
                    'configuration->string mapping; it is checked in generated mode as a rider']
-    PROBES = ('c06.generated-mode', 'c06.shipped-mode', 'c06.must-reject', 'c06.must-accept', 'c06.constant',
+    PROBES = ('c06.generated-mode', 'c06.automatic-communicator', 'c06.shipped-mode', 'c06.must-reject', 'c06.must-accept', 'c06.constant',
               'c06.undescribed-probed', 'c06.describe-repeated', 'c06.emitted-values-checked', 'c06.unexported-module',
               'c06.export-configured', 'c06.limits-set-at-start',
               'c06.driver-glitch', 'c06.features-compared')
@@ -142,6 +163,8 @@ class C06(Check):
                 d['all_features'] = d['features'] + list(s0.get('features', ()))
                 specs.insert(specs.index(s0) + 1, d)
             shape['specs'] = specs
+            # a module configured with an uri (first or last section of the configuration)
+            shape['auto_io'] = rng.choice([None, None, 'first', 'last'])
         else:
             shape['cfg'] = rng.choice(SHIPPED)
             shape['random_seed'] = rng.randrange(1 << 30)
@@ -155,8 +178,17 @@ class C06(Check):
         if shape['mode'] == 'generated':
             sim.count('c06.generated-mode')
             drv = genmod.Driver(sim)
-            node = nodeworld.Node(world, 'n', shape['specs'], drv)
+            node = nodeworld.Node(world, 'n', shape['specs'], drv, start=False)
             ctx['cleanup'].append(node.forget)
+            if shape.get('auto_io'):
+                sim.count('c06.automatic-communicator')
+                HasIO.ioDict.clear()
+                ctx['cleanup'] += [HasIO.ioDict.clear, lambda: env.forget_classes(AutoIO, WithIO)]
+                sect = {'hio': {'cls': WithIO, 'description': 'module with an automatic communicator',
+                                'uri': 'tcp://simhost:999'}}
+                cfg = dict(node.srv.module_cfg)
+                node.srv.module_cfg = node.cfg = dict(sect, **cfg) if shape['auto_io'] == 'first' else dict(cfg, **sect)
+            node.start()
             srv = node.srv
         else:
             sim.count('c06.shipped-mode')
@@ -189,9 +221,14 @@ class C06(Check):
         if any(s.get('late_limits') for s in shape.get('specs', ())):
             sim.count('c06.limits-set-at-start')
         hidden = ctx['hidden'] = []
+        ctx['not_listed'] = []
         for mname, mobj in secnode.modules.items():
             if mname not in desc['modules']:
                 hidden.append(('module', mname, None))
+                if mobj.export:
+                    # a module object which is to be exported (also one the node created by itself, like the
+                    # communicator of a module configured with an uri)
+                    ctx['not_listed'].append(mname)
                 continue
             for aname, aobj in mobj.accessibles.items():
                 if not aobj.export:
@@ -449,6 +486,9 @@ class C06(Check):
             elif ln.action in ('update', 'error_update') and not ln.json_ok:
                 res.append(Violation('C06.reply-not-strict-json', 'update', f'{tag}: {ln!r}: {ln.problem}'))
                 break
+        for mname in ctx.get('not_listed', ()):
+            res.append(Violation('C06.listed-but-missing', 'module-object',
+                                 f'{tag}: module {mname} exists with export=True but the description does not list it'))
         # rider: interface class / features match the implementing class (generated mode)
         if shape['mode'] == 'generated':
             for s in shape['specs']:
